@@ -453,7 +453,17 @@ pub fn worker_main(args: &Args, w: usize, n: usize) -> ! {
             .unwrap_or_else(|e| simcore::harness_error(&e));
         let mism = dump::check_against_model(&pristine, &built.model, true);
         if !mism.is_empty() {
-            simcore::harness_error(&format!("C11 image {name}: {}", mism[0]));
+            // the fault-free configuration already misreads: reported as a violation (every pack is
+            // available and yet something does not read as written)
+            if w == 0 {
+                println!(
+                    "{}",
+                    json!({"t":"case","ii":ii,"image":name,"i":0,"case":"fault-free configuration","kind":"none",
+                           "instant":"-","subset":0,"damaged":0,
+                           "bad":[format!("fault-free: {}", mism[0])],"panicked":false})
+                );
+            }
+            continue;
         }
         let files: Vec<(String, Vec<u8>)> = built
             .files
